@@ -1824,7 +1824,7 @@ def gen_restore_stmt(node, code, codegen):
     if target:
         label_index = code.get_data_label_index(target)
     else:
-        label_index = -1
+        label_index = 0
 
     code.add(
         ('push%', label_index),
